@@ -31,9 +31,12 @@ grid sizes `mk, mth ≥ 1`, all level counts, all graphs and all traces.
 * `five_sweeps_complete_fails`: a concrete 8×4 spectrum on which the transliterated `pt_fld` emits a valid trace
   but is **not** `Complete` after its five sweeps (kernel evaluation of the model) — the witness of F04-thick-wshed.
 
+**Proved elsewhere for all inputs**: the concrete transliteration of `pt_fld` (`Model/Specpart.lean`, tied to the real C by
+exact equality of label maps) always emits a `Valid` trace whose final abstract labels are the concrete label map
+(`Props/C20fld.lean`: `partition_trace_valid`, `partition_abstract_final`); `Props/C04sound.lean` composes this with
+`flood_sound_full` into `partition_sound`, a statement about the returned label array.
+
 **Checked per input, not proved** (exploration; `harness/checks/c04.py`)
-* that the concrete transliteration of `pt_fld` (`Model/Specpart.lean`) — which is tied to the real C by exact
-  equality of label maps — always emits a `Valid` trace whose final abstract labels are the concrete label map;
 * that the five clean-up sweeps leave no watershed pixel (`Complete`).  This is **false** of the code in general:
   finding F04-thick-wshed (a 16×4 corridor spectrum keeps 36 bins at label 0); `Complete` therefore stays a
   hypothesis of `flood_sound`;
